@@ -63,7 +63,7 @@ def generate(tier, rng):
         ic = rng.random() < 0.4
         unique = rng.random() < 0.6
         names = rc.names_for(rng, t, sep, unique, ic or rng.random() < 0.5, not unique)
-        c = {"fam": "resolve", "tree": t, "names": names, "sep": sep, "queries": [], "unique": unique,
+        c = {"fam": "resolve", "tree": t, "names": names, "sep": sep, "queries": [], "unique": unique, "typed": rc.typed_labels(rng, names),
              "cls": rng.choice([None, None, "len", "falsy", "eq"])}
         labs = gen.tree_labels(t)
         stress = rng.random() < 0.15
